@@ -5,5 +5,7 @@ CONSTANTS
   MaxBytes = 9
   Dev = "none"
   Depth = 60
+  WtSet = {300, 700, 1000, 8000}
+  RtSet = {20000, 60000}
 INVARIANTS Emit
 CHECK_DEADLOCK FALSE
